@@ -258,7 +258,7 @@ func chunkOracle(prop string, res *RunResult) []Violation {
 					}
 				}
 				if !same {
-					vs = append(vs, Violation{Sig: prop + ":" + cls + ":aggregate-differs", Msg: fmt.Sprintf("%q: %s: %s (%d vs %d groups)", texts[qi], desc, detail, len(ref.groups), len(a.groups))})
+					vs = append(vs, Violation{Sig: prop + ":" + cls + ":aggregate-differs" + secondPassSuffix(texts[qi]), Msg: fmt.Sprintf("%q: %s: %s (%d vs %d groups)", texts[qi], desc, detail, len(ref.groups), len(a.groups))})
 				}
 				continue
 			}
